@@ -8,14 +8,16 @@ use serde::{Deserialize, Serialize};
 use std::mem::MaybeUninit;
 
 #[derive(Clone, Debug, Serialize, Deserialize)]
-pub enum Op { NewPrivate(u64), Generate, NewPayload(u64), Clone(u16), Drop(u16), MoveToHeap(u16), ClonePublicPart(u16) }
+pub enum Op { NewPrivate(u64), Generate, NewPayload(u64), Clone(u16), Drop(u16), MoveToHeap(u16), ClonePublicPart(u16), DropWhileUnwinding(u16) }
 #[derive(Clone, Debug, Serialize, Deserialize)]
 pub struct Program { pub ops: Vec<Op>, pub final_order: Vec<u16> }
 
 enum Held { PrivInline(usize), PrivBoxed(Box<MaybeUninit<PrivateKey>>), PayInline(usize), PayBoxed(Box<MaybeUninit<PayloadKey>>) }
 const ARENA: usize = 40;
 
-fn nonzero_key(seed: u64) -> [u8; 32] { let mut k = gen::key32(seed, "c20"); for b in k.iter_mut() { if *b == 0 { *b = 0x5a; } } k }
+/// Key material: never all-zero; one key in three carries zero bytes at generated positions (a wipe that
+/// "detects" an already wiped key by looking for a zero byte must not be fooled).
+fn nonzero_key(seed: u64) -> [u8; 32] { let mut k = gen::key32(seed, "c20"); for b in k.iter_mut() { if *b == 0 { *b = 0x5a; } } if seed % 3 == 0 { k[(seed >> 8) as usize % 32] = 0; if seed % 2 == 0 { k[(seed >> 16) as usize % 32] = 0; } } k }
 
 /// Drop the value at `p` in place and check that the storage it owned at that moment holds zeros where the key was.
 unsafe fn drop_checked<T>(p: *mut T, key_ptr: *const u8, what: &str, origin: &str) -> Result<&'static str, String> {
@@ -35,6 +37,20 @@ unsafe fn drop_checked<T>(p: *mut T, key_ptr: *const u8, what: &str, origin: &st
             alloc::W_NONZERO => Err(format!("{} ({}) dropped: its heap block was released while still holding the secret bytes", what, origin)),
             _ => Ok("heap-not-released"),
         }
+    }
+}
+
+/// Drop a boxed container from a frame that is unwinding; the allocator inspects the block that held the key.
+fn drop_unwinding<T>(b: Box<T>, key_ptr: impl Fn(&T) -> *const u8, what: &str, origin: &str) -> Result<&'static str, String> {
+    let kp = key_ptr(&b) as usize;
+    let slot = alloc::watch(kp, 32).ok_or("harness: watch table full")?;
+    let r = std::panic::catch_unwind(std::panic::AssertUnwindSafe(move || { let _owned = b; panic!("C20 harness: unwinding with a key alive"); }));
+    let st = alloc::watch_state(slot); alloc::watch_release(slot);
+    if r.is_ok() { return Err("harness: the frame did not unwind".into()); }
+    match st {
+        alloc::W_ZERO => Ok("erased"),
+        alloc::W_NONZERO => Err(format!("{} ({}) dropped while the thread was unwinding from a panic: its memory was released still holding the secret bytes", what, origin)),
+        _ => Ok("not-released"),
     }
 }
 
@@ -74,6 +90,17 @@ pub fn check(prog: &Program) -> CheckResult {
                 Held::PrivInline(j) => { let v = std::ptr::read(priv_arena[j].as_ptr()); std::ptr::write_bytes(priv_arena[j].as_mut_ptr() as *mut u8, 0, std::mem::size_of::<PrivateKey>()); Held::PrivBoxed(Box::new(MaybeUninit::new(v))) }
                 Held::PayInline(j) => { let v = std::ptr::read(pay_arena[j].as_ptr()); std::ptr::write_bytes(pay_arena[j].as_mut_ptr() as *mut u8, 0, std::mem::size_of::<PayloadKey>()); Held::PayBoxed(Box::new(MaybeUninit::new(v))) }
                 other => other }, o)); } },
+            Op::DropWhileUnwinding(x) => if let Some(i) = sel(*x) {
+                // the value is owned by a frame that panics: its destructor runs during unwinding
+                let (h, o) = held[i].take().unwrap(); if o == "clone" { clone_dropped = true; }
+                let outcome: Result<&'static str, String> = unsafe { match h {
+                    Held::PrivInline(j) => { let v = std::ptr::read(priv_arena[j].as_ptr()); std::ptr::write_bytes(priv_arena[j].as_mut_ptr() as *mut u8, 0, std::mem::size_of::<PrivateKey>()); drop_unwinding(Box::new(v), |b| b.as_bytes().as_ptr(), "PrivateKey", o) }
+                    Held::PrivBoxed(b) => { let v = b.assume_init_read(); drop_unwinding(Box::new(v), |b| b.as_bytes().as_ptr(), "PrivateKey", o) }
+                    Held::PayInline(j) => { let v = std::ptr::read(pay_arena[j].as_ptr()); std::ptr::write_bytes(pay_arena[j].as_mut_ptr() as *mut u8, 0, std::mem::size_of::<PayloadKey>()); drop_unwinding(Box::new(v), |b| b.as_bytes().as_ptr(), "PayloadKey", o) }
+                    Held::PayBoxed(b) => { let v = b.assume_init_read(); drop_unwinding(Box::new(v), |b| b.as_bytes().as_ptr(), "PayloadKey", o) }
+                } };
+                match outcome { Ok(k) => { kinds.insert(format!("unwinding/{}", k)); } Err(m) => result = Err(m) }
+            },
             Op::Drop(x) => if let Some(i) = sel(*x) { let (h, o) = held[i].take().unwrap(); if o == "clone" || held.iter().flatten().any(|(_, oo)| *oo == "clone") { clone_dropped = true; } result = drop_one(h, o, &mut priv_arena, &mut pay_arena, &mut kinds); },
         }
     }
@@ -86,7 +113,7 @@ pub fn check(prog: &Program) -> CheckResult {
 }
 
 pub fn strat() -> impl Strategy<Value = Program> {
-    let op = prop_oneof![2 => any::<u64>().prop_map(Op::NewPrivate), 1 => Just(Op::Generate), 2 => any::<u64>().prop_map(Op::NewPayload), 4 => any::<u16>().prop_map(Op::Clone), 3 => any::<u16>().prop_map(Op::Drop), 2 => any::<u16>().prop_map(Op::MoveToHeap), 1 => any::<u16>().prop_map(Op::ClonePublicPart)];
+    let op = prop_oneof![2 => any::<u64>().prop_map(Op::NewPrivate), 1 => Just(Op::Generate), 2 => any::<u64>().prop_map(Op::NewPayload), 4 => any::<u16>().prop_map(Op::Clone), 3 => any::<u16>().prop_map(Op::Drop), 2 => any::<u16>().prop_map(Op::MoveToHeap), 1 => any::<u16>().prop_map(Op::ClonePublicPart), 1 => any::<u16>().prop_map(Op::DropWhileUnwinding)];
     (proptest::collection::vec(op, 1..30), proptest::collection::vec(any::<u16>(), 0..12)).prop_map(|(ops, final_order)| Program { ops, final_order })
 }
 
@@ -99,6 +126,9 @@ pub fn run(ctx: &Ctx) {
         Program { ops: vec![Op::NewPrivate(1)], final_order: vec![] }, Program { ops: vec![Op::Generate], final_order: vec![] }, Program { ops: vec![Op::NewPayload(1)], final_order: vec![] },
         Program { ops: vec![Op::NewPrivate(1), Op::Clone(0), Op::Drop(0)], final_order: vec![] }, Program { ops: vec![Op::NewPayload(1), Op::Clone(0), Op::Drop(65535)], final_order: vec![] },
         Program { ops: vec![Op::Generate, Op::Clone(0), Op::MoveToHeap(0), Op::MoveToHeap(65535)], final_order: vec![1] }, Program { ops: vec![Op::NewPayload(3), Op::MoveToHeap(0), Op::Clone(0)], final_order: vec![] },
+        Program { ops: vec![Op::NewPrivate(3), Op::Clone(0), Op::DropWhileUnwinding(0), Op::DropWhileUnwinding(0)], final_order: vec![] },
+        Program { ops: vec![Op::NewPayload(6), Op::Clone(0), Op::DropWhileUnwinding(0), Op::DropWhileUnwinding(0)], final_order: vec![] },
+        Program { ops: vec![Op::NewPrivate(9), Op::NewPrivate(12), Op::NewPrivate(15), Op::NewPayload(9), Op::NewPayload(18)], final_order: vec![] },
     ];
     ctx.sse_vec("constructors_fixed", "each constructor x {dropped directly, cloned then dropped in both orders, boxed}", fixed, check);
 }
